@@ -9,7 +9,7 @@ import (
 
 // The lexical knobs of idl.Style, by name, so that a failing rendering can be
 // bisected one knob at a time against idl.DefaultStyle().
-var knobNames = []string{"FieldSep", "EnumSep", "FuncSep", "OpSep", "StmtEnd", "Indent", "Quote", "Gap", "Inline", "Blank", "BraceNL", "AngleWS", "TrailingNL", "CRLF", "Tabs", "ZeroPad", "BareCR"}
+var knobNames = []string{"FieldSep", "EnumSep", "FuncSep", "OpSep", "StmtEnd", "Indent", "Quote", "Gap", "Inline", "Blank", "BraceNL", "AngleWS", "TrailingNL", "CRLF", "Tabs", "ZeroPad", "BareCR", "Wrap"}
 
 func sepName(s string) string {
 	switch s {
@@ -73,6 +73,8 @@ func knobValue(s idl.Style, name string) string {
 		return fmt.Sprint(s.ZeroPad)
 	case "BareCR":
 		return []string{"none", "crcrlf-line-ends", "before-indentation", "between-tokens"}[s.BareCR%4]
+	case "Wrap":
+		return []string{"none", "line-break", "slashslash-then-break", "hash-then-break", "break-then-block"}[s.Wrap%5]
 	}
 	return "?"
 }
@@ -114,6 +116,8 @@ func copyKnob(dst *idl.Style, src idl.Style, name string) {
 		dst.ZeroPad = src.ZeroPad
 	case "BareCR":
 		dst.BareCR = src.BareCR
+	case "Wrap":
+		dst.Wrap = src.Wrap
 	}
 }
 
@@ -172,6 +176,10 @@ func singleKnobStyles() []idl.Style {
 		m := m
 		add(func(s *idl.Style) { s.BareCR = m })
 	}
+	for m := 1; m <= 4; m++ {
+		m := m
+		add(func(s *idl.Style) { s.Wrap = m })
+	}
 	return out
 }
 
@@ -201,6 +209,9 @@ func randomStyle(rng *rand.Rand) idl.Style {
 	}
 	if rng.Intn(4) == 0 {
 		s.BareCR = 1 + rng.Intn(3)
+	}
+	if rng.Intn(4) == 0 {
+		s.Wrap = 1 + rng.Intn(4)
 	}
 	return s
 }
